@@ -6,7 +6,9 @@
      WalkAgrees    the transcription of _walk/_verify decides exactly Accept
                    (holds for Pinned = FALSE; for Pinned = TRUE the run with
                    invariant Report lists the descriptors on which the
-                   traversal of the pinned tree disagrees with Accept)       *)
+                   traversal of the pinned tree disagrees with Accept)
+     CmdAgrees     the transcription of the import path of the command judges
+                   the submitted checkout in every environment case          *)
 EXTENDS Gate, Json
 VARIABLE d
 vars == <<d>>
@@ -21,6 +23,8 @@ TypeOK ==
     /\ d.kinds = {} <=> d.viol = NoFactory.v
     /\ Accept(d) \in BOOLEAN
 WalkAgrees == ImplAccept(d) = Accept(d)
+(* the command judges the submitted checkout in every environment case built on d *)
+CmdAgrees == \A c \in EnvCasesOf(d) : EnvWellFormed(c) /\ ImplCmdAccept(c) = CmdAccept(c)
 Report == (ImplAccept(d) # Accept(d)) =>
              PrintT(<<"DISAGREE", ToJson(d), IF Accept(d) THEN "rejects-conforming" ELSE "accepts-violating">>)
 =============================================================================
